@@ -204,6 +204,8 @@ func c09Program(r *RNG) GoProg {
 	sb.WriteString("func sum2(base int, xs ...int) (int, int) {\n\ts := base\n\tfor _, x := range xs {\n\t\ts += x\n\t}\n\treturn s, len(xs)\n}\n\n")
 	sb.WriteString("func tail1(xs []int) int {\n\treturn sum(3, xs...)\n}\n\nfunc tail2(xs []int) (int, int) {\n\treturn sum2(4, xs...)\n}\n\nfunc tail0(k int) int {\n\treturn sum(k)\n}\n\n")
 	sb.WriteString("func (t *T) MV(xs ...int) int {\n\treturn t.A + len(xs)*10\n}\n\nfunc (t *T) TailM(xs []int) int {\n\treturn t.MV(xs...)\n}\n\n")
+	sb.WriteString("func (t *T) MVf(k int, xs ...float64) float64 {\n\tif len(xs) == 0 {\n\t\treturn 0.25\n\t}\n\treturn xs[0]/2 + float64(k)\n}\n\nfunc (t *T) MVb(xs ...byte) byte {\n\treturn xs[len(xs)-1] + 200\n}\n\n")
+	sb.WriteString("func blank(_ int, _ string, c int) int {\n\treturn c\n}\n\nfunc blank2(_, _ int) int {\n\treturn 7\n}\n\nfunc (_ *T) MB(_ int, _ int, c ...int) int {\n\treturn len(c)\n}\n\n")
 	sb.WriteString("func rec(n int) int {\n\tif n == 0 {\n\t\treturn 0\n\t}\n\treturn 1 + rec(n-1)\n}\n\n")
 	sb.WriteString("func apply(f func(int) int, v int) int {\n\treturn f(v) + 1\n}\n\nfunc twice(v int) int {\n\treturn v * 2\n}\n\nfunc pair(a int, b int) (int, int) {\n\treturn b, a\n}\n\nfunc pass(a int, b int) (int, int) {\n\treturn pair(a, b)\n}\n\n")
 	nf := 2 + r.Intn(3)
@@ -275,6 +277,7 @@ func c09Program(r *RNG) GoProg {
 			fmt.Fprintf(&sb, "func w%d(%s) (%s) {\n\treturn g%d(%s)\n}\n\n", i, strings.Join(ps2, ", "), strings.Join(s.rs, ", "), i, strings.Join(as2, ", "))
 		}
 	}
+	sb.WriteString("var gta, gtb int = pair(11, 12)\n\nvar gua, _ = pair(13, 14)\n\n")
 	sb.WriteString("func main() {\n")
 	for i, s := range sigs {
 		var args []string
@@ -320,7 +323,27 @@ func c09Program(r *RNG) GoProg {
 			if all {
 				names[0] = fmt.Sprintf("r%d_0", i)
 			}
-			fmt.Fprintf(&sb, "%s := %s\n", strings.Join(names, ", "), call)
+			same := true
+			for _, t := range s.rs {
+				if t != s.rs[0] {
+					same = false
+				}
+			}
+			switch form := r.Intn(4); {
+			case form == 0 && same: // typed declaration of several names from one multi-result call
+				fmt.Fprintf(&sb, "var %s %s = %s\n", strings.Join(names, ", "), s.rs[0], call)
+			case form == 1:
+				fmt.Fprintf(&sb, "var %s = %s\n", strings.Join(names, ", "), call)
+			case form == 2: // declared first, then assigned
+				for k, nm := range names {
+					if nm != "_" {
+						fmt.Fprintf(&sb, "var %s %s\n", nm, s.rs[k])
+					}
+				}
+				fmt.Fprintf(&sb, "%s = %s\n", strings.Join(names, ", "), call)
+			default:
+				fmt.Fprintf(&sb, "%s := %s\n", strings.Join(names, ", "), call)
+			}
 			var used []string
 			for _, nm := range names {
 				if nm != "_" {
@@ -355,9 +378,12 @@ func c09Program(r *RNG) GoProg {
 	fmt.Fprintf(&sb, "println(\"sum\", sum(1), sum(1, 2), sum(1, 2, 3, 4))\nxs := []int{5, 6, 7}\nprintln(\"spread\", sum(2, xs...))\n")
 	fmt.Fprintf(&sb, "t := &T{A: %d}\nm := t.M\nt = &T{A: 9}\nprintln(\"bound\", m(3), t.M(3))\n", 1+r.Intn(8))
 	sb.WriteString("s, n := t.M2(4, \"q\")\nprintln(\"m2\", s, n)\n")
+	fmt.Fprintf(&sb, "mvf := t.MVf\nmvb := t.MVb\nprintln(\"mvar\", t.MVf(1, %d), t.MVf(2), mvf(3, 5, 6), t.MVb(%d), mvb(1, %d), t.MVb([]byte{7, 100}...))\n", 1+2*r.Intn(20), 60+r.Intn(150), 60+r.Intn(150))
+	fmt.Fprintf(&sb, "println(\"blank\", blank(1, \"x\", %d), blank2(3, 4), t.MB(1, 2), t.MB(1, 2, 3, 4))\n", r.Intn(100))
 	sb.WriteString("fv := twice\nprintln(\"fv\", fv(21), apply(twice, 5), apply(fv, 6))\n")
 	sb.WriteString("t.F = twice\nprintln(\"field\", t.F(8))\n")
 	sb.WriteString("a, b := pass(1, 2)\nprintln(\"pass\", a, b)\n")
+	sb.WriteString("var ta, tb int = pass(3, 4)\nvar ua, ub = pair(5, 6)\nvar va, _ int = pair(7, 8)\nprintln(\"decl\", ta, tb, ua, ub, va, gta, gtb, gua)\n")
 	fmt.Fprintf(&sb, "ys := []int{%d, %d}\nprintln(\"tail\", tail1(ys), tail1(nil), tail0(6))\nq1, q2 := tail2(ys)\nprintln(\"tail2\", q1, q2, t.TailM(ys))\n", r.Intn(50), r.Intn(50))
 	sb.WriteString("println(\"nested\", 10+twice(3)*2, sum(twice(1), twice(2)))\n")
 	sb.WriteString("}\n")
@@ -372,7 +398,7 @@ func prefixComma(a []string) string {
 }
 
 func runC09(c *Ctx) error {
-	c.Rep.Rule = "call: script functions with 0..4 int parameters (optionally a variadic tail), 0..3 results and 0..2 extra locals, called by a CALL instruction on the real VM with a caller stack prefix of 0..3 values, the right / a wrong argument count and every requested result count, final stack compared with the model; programs: generated signatures (0..5 parameters and 0..3 results over int, byte, float64, string, bool), all call forms (statement, single value, multi-assign with blanks, return f(), method value bound before reassignment, multi-result method, function-typed variable / parameter / field, variadic with 0..n extras and spread, nested in expressions) and recursion to depth 3000, against the Go toolchain; distinct = distinct line / program; non-trivial = non-empty caller prefix and accepted call / program"
+	c.Rep.Rule = "call: script functions with 0..4 int parameters (optionally a variadic tail), 0..3 results and 0..2 extra locals, called by a CALL instruction on the real VM with a caller stack prefix of 0..3 values, the right / a wrong argument count and every requested result count, final stack compared with the model; programs: generated signatures (0..5 parameters and 0..3 results over int, byte, float64, string, bool), all call forms (statement, single value, multi-assign with blanks by := / var / typed var / plain assignment, in functions and at package level, return f(), method value bound before reassignment, multi-result method, function-typed variable / parameter / field, variadic with 0..n extras and spread (functions, methods and method values with int, float64 and byte tails), blank parameters, nested in expressions) and recursion to depth 3000, against the Go toolchain; distinct = distinct line / program; non-trivial = non-empty caller prefix and accepted call / program"
 	if err := c.c09Corr(); err != nil {
 		return err
 	}
